@@ -152,7 +152,7 @@ def get_noisy_evaluations_chol(means: np.ndarray, cholesky_cov: np.ndarray) -> n
         raise AssertionError("Invalid dimensions.")
     n, d = means.shape[0], len(cholesky_cov)
     X = np.random.normal(size=(n, d))
-    complicated_X = np.dot(X, cholesky_cov)
+    complicated_X = np.dot(X, cholesky_cov.T)  # Rows of X are samples: cov(X L^T) = L L^T.
 
     noisy_samples = means + complicated_X
 
